@@ -55,3 +55,7 @@ simple_frame_codec!(
     },
     stop_sending_tag!()
 );
+
+#[cfg(all(aws_s2n_quic_verif, test))]
+#[path = "/verif/harness/core/frame_stop_sending.rs"]
+mod verif;
